@@ -351,6 +351,88 @@ def check_withdraw(eng, run, rule="C10.lend"):
     run.floor(f"{rule} lent buffers with a buffer_updated callback", n, 1)
 
 
+def check_raw_buffer_reads(eng, run, rule="C10.flow"):
+    """the protocol's pre-allocated receive buffer holds received bytes only below the fill level: every read of the raw buffer view is
+    the slice `[:level]` (level attribute or a local copy of it); the window `[level:]` is only handed to the event loop by get_buffer();
+    anything else - in particular a negative index, which counts from the physical end - reads bytes that were never received"""
+    n = 0
+    for ci in eng.db.classes.values():
+        gb = ci.methods.get("get_buffer")
+        if gb is None or ci.methods.get("buffer_updated") is None:
+            continue
+        me = gb.self_name
+        raw = level = None
+        for r in own_nodes(gb.node):
+            if isinstance(r, ast.Return) and isinstance(r.value, ast.Subscript) and isinstance(r.value.slice, ast.Slice) and r.value.slice.lower is not None and r.value.slice.upper is None:
+                raw, level = dotted(r.value.value), dotted(r.value.slice.lower)
+        if raw is None or level is None or not raw.startswith(me + ".") or not level.startswith(me + "."):
+            continue
+        raw_a, level_a = raw.split(".", 1)[1], level.split(".", 1)[1]
+        for fn in ci.methods.values():
+            if isinstance(fn.node, ast.Lambda) or fn.self_name is None:
+                continue
+            lv_alias = {t.id for a in own_nodes(fn.node) if isinstance(a, (ast.Assign, ast.AnnAssign)) and dotted(getattr(a, "value", None)) == f"{fn.self_name}.{level_a}"
+                        for t in (a.targets if isinstance(a, ast.Assign) else [a.target]) if isinstance(t, ast.Name)}
+            for sub in own_nodes(fn.node):
+                if not (isinstance(sub, ast.Subscript) and dotted(sub.value) == f"{fn.self_name}.{raw_a}"):
+                    continue
+                n += 1
+                sl = sub.slice
+                ok = False
+                if isinstance(sl, ast.Slice) and sl.step is None:
+                    up, lo = sl.upper, sl.lower
+                    is_level = lambda e: e is not None and (dotted(e) == f"{fn.self_name}.{level_a}" or (isinstance(e, ast.Name) and e.id in lv_alias))  # noqa: E731
+                    if lo is None and is_level(up):
+                        ok = True  # the received part
+                    elif up is None and is_level(lo) and fn is gb:
+                        ok = True  # the free window, handed to the loop
+                if not ok:
+                    run.finding(rule, fn, _line_stmt(fn, sub.lineno), f"`{ast.unparse(sub)}` addresses the raw receive buffer outside `[:{level_a}]`: it reads (or moves) bytes beyond the fill level - "
+                                "stale or zero bytes take the place of received data")
+                run.ob(rule, f"{fn.short}:{ast.unparse(sub)[:50]}", ok)
+    run.floor(f"{rule} raw receive-buffer subscripts", n, 3)
+
+
+def check_conservation(eng, run, rule="C10.flow"):
+    """no byte lost, none duplicated when data is copied out of the protocol's internal buffer: on every loop-free path of the methods
+    that lower the fill level, level_after + bytes_handed_out == level_before (linear forms over the level, the caller's buffer
+    size and the requested size; min() resolved by the path's own branch conditions; sa/analyses/conserve.py)"""
+    from sa.analyses.conserve import check_function
+    n_paths = n_fn = 0
+    for ci in eng.db.classes.values():
+        gb = ci.methods.get("get_buffer")
+        if gb is None or ci.methods.get("buffer_updated") is None:
+            continue
+        level = None
+        for r in own_nodes(gb.node):
+            if isinstance(r, ast.Return) and isinstance(r.value, ast.Subscript) and isinstance(r.value.slice, ast.Slice) and r.value.slice.lower is not None and r.value.slice.upper is None:
+                level = dotted(r.value.slice.lower)
+        if level is None:
+            continue
+        attr = level.split(".", 1)[1]
+        for fn in ci.methods.values():
+            if isinstance(fn.node, ast.Lambda) or not fn.is_async or fn.self_name is None:
+                continue
+            la = f"{fn.self_name}.{attr}"
+            if not any(isinstance(x, (ast.Assign, ast.AugAssign)) and any(dotted(t) == la for t in (x.targets if isinstance(x, ast.Assign) else [x.target])) for x in own_nodes(fn.node)):
+                continue
+            n_fn += 1
+            try:
+                res = check_function(fn, la)
+            except OverflowError:
+                run.ob(rule, f"{fn.short}:byte-conservation", True, evaluated=False, reason="too many paths")
+                continue
+            bad = [(p, why) for v, p, why in res if v == "violated"]
+            und = [why for v, p, why in res if v == "undecided"]
+            n_paths += sum(1 for v, _, _ in res if v in ("ok", "no-effect"))
+            for p_, why in bad[:1]:
+                run.finding(rule, fn, fn.node, f"bytes are not conserved on a path that copies data out of the internal receive buffer: {why} - "
+                            "bytes of the stream are dropped or delivered twice, depending on the sizes of the caller's buffer and of the backlog")
+            run.ob(rule, f"{fn.short}:byte-conservation", not bad, decided_paths=sum(1 for v, _, _ in res if v != "undecided"), undecided=und)
+    run.floor(f"{rule} copy-out functions", n_fn, 2)
+    run.floor(f"{rule} copy-out paths decided", n_paths, 6)
+
+
 def check_ack(eng, run):
     n = 0
     for ci in eng.db.classes.values():
@@ -590,6 +672,8 @@ def run(eng, run):
     check_withdraw(eng, run)
     from rules.c03 import check_water_marks
     check_water_marks(eng, run, rule="C10.flow")
+    check_raw_buffer_reads(eng, run)
+    check_conservation(eng, run)
     check_ack(eng, run)
     check_parser(eng, run)
     check_eof_latch(eng, run)
@@ -691,4 +775,25 @@ MUTANTS += [
     Variant("buffer-updated-keeps-the-lent-buffer-registered", "lowlevel.api_async.backend._asyncio.stream.socket:StreamReaderBufferedProtocol.buffer_updated",
             lambda fn: delete_stmt(fn, stmt_is("self.__external_buffer_view = None")), "C10.lend",
             why="two arrivals before the task wakes: the second overwrites the first (seed C10-9)"),
+]
+
+
+MUTANTS += [
+    Variant("leftover-shifted-from-the-physical-end-of-the-buffer", "lowlevel.api_async.backend._asyncio.stream.socket:StreamReaderBufferedProtocol.receive_data",
+            lambda fn: replace_stmt(fn, stmt_has("protocol_buffer_written[:unused] = protocol_buffer_written[-unused:]"), "self.__buffer_view[:unused] = self.__buffer_view[-unused:]"),
+            "C10.flow", why="the unread rest of the stream is replaced by stale bytes from the end of the 256 KiB buffer (seed C10-7)"),
+]
+
+
+_RDI = "lowlevel.api_async.backend._asyncio.stream.socket:StreamReaderBufferedProtocol.receive_data_into"
+_RD = "lowlevel.api_async.backend._asyncio.stream.socket:StreamReaderBufferedProtocol.receive_data"
+MUTANTS += [
+    Variant("copy-out-level-decremented-by-the-remainder", _RDI, lambda fn: replace_stmt(fn, stmt_is("self.__buffer_nbytes_written = bufsize_offset"), "self.__buffer_nbytes_written -= bufsize_offset"),
+            "C10.flow", why="the level ends up as the number of bytes handed out instead of the number left (seed C02-9)"),
+    Variant("copy-out-level-off-by-one", _RD, lambda fn: replace_stmt(fn, stmt_is("self.__buffer_nbytes_written = unused"), "self.__buffer_nbytes_written = unused - 1"), "C10.flow",
+            why="one byte of the stream is dropped at every partial read"),
+]
+BENIGN += [
+    Variant("copy-out-level-decremented-by-the-copied-amount", _RDI, lambda fn: replace_stmt(fn, stmt_is("self.__buffer_nbytes_written = bufsize_offset"), "self.__buffer_nbytes_written -= nbytes_written"),
+            why="same level written as a decrement by the amount just copied"),
 ]
